@@ -7,6 +7,7 @@ package pfcp
 
 import (
 	"fmt"
+	"net"
 	"sort"
 )
 
@@ -166,3 +167,11 @@ func (s *PfcpServer) VerifDumpState() VerifDump {
 func (s *PfcpServer) VerifSetTxSeq(v uint32) { s.txSeq = v }
 
 func (s *PfcpServer) VerifChanLens() (int, int, int) { return len(s.rcvCh), len(s.srCh), len(s.trToCh) }
+
+// VerifTxKeys returns the keys the real constructors give a sender-side and a receiver-side transaction (C06)
+func (s *PfcpServer) VerifTxKeys(raddr net.Addr, seq uint32) (string, string) {
+	tx := NewTxTransaction(s, raddr, seq)
+	rx := NewRxTransaction(s, raddr, seq)
+	rx.timer.Stop()
+	return tx.id, rx.id
+}
